@@ -5,6 +5,7 @@ CONSTANTS
   X0 <- X0_2
   B = {"b1"}
   Owner <- Owner_2
+  Vias = {"lookup"}
   MaxOps = 4
 CONSTRAINT Emit
 CHECK_DEADLOCK FALSE
